@@ -384,6 +384,7 @@ func runH2(sp h2spec, kind string, pos int, racy bool) (o h2obs) {
 	defer r.dl.openAll()
 	r.resp = bytes.Repeat([]byte("0123456789"), respBodyLen/10)
 	c := req.C().DisableAutoDecode().EnableH2C().EnableForceHTTP2().SetTimeout(0)
+	c.SetDial(r.dl.dial) // h2c (http://) connections are dialled through the plain dial hook (since ecf6c40)
 	c.SetDialTLS(r.dl.dial)
 	if kind == "client-timeout" {
 		c.SetTimeout(timerDelay)
